@@ -8,6 +8,7 @@ import FormakVerif.Model.Expr
 import FormakVerif.Model.PyModel
 import FormakVerif.Model.Runtime
 import FormakVerif.Model.Ekf
+import FormakVerif.Model.Validate
 open Lean FormakVerif
 
 def parseRat (s : String) : Except String Rat :=
@@ -373,6 +374,31 @@ def opCheckJac (j : Json) : Except String Json := do
     ("firstbad", match firstBad with | some i => Json.num i | none => Json.null),
     ("speclen_ok", spec.length == prog.body.length)])
 
+/-! ### validation -/
+def jNoiseEntry (j : Json) : Except String (NoiseKey × Rat) := do
+  let a ← j.getArr?
+  match a[0]?, a[1]?, a[2]? with
+  | some k, some n, some v =>
+    let kind ← k.getStr?
+    let name ← n.getStr?
+    return (if kind == "sym" then NoiseKey.sym name else NoiseKey.other name, ← jRat v)
+  | _, _, _ => .error "noise entry"
+
+def jSensorSkel (j : Json) : Except String SensorSkel := do
+  return { key := ← (← j.getObjVal? "key").getStr?, readings := ← jKw jStrList (← j.getObjVal? "readings") }
+
+def jVDef (j : Json) : Except String VDef := do
+  return { state := ← jStrList (← j.getObjVal? "state"), control := ← jStrList (← j.getObjVal? "control"),
+           calibration := ← jStrList (← j.getObjVal? "calibration"), updateKeys := ← jStrList (← j.getObjVal? "updateKeys"),
+           calKeys := ← jStrList (← j.getObjVal? "calKeys"), noise := ← jList jNoiseEntry (← j.getObjVal? "noise"),
+           sensors := ← jList jSensorSkel (← j.getObjVal? "sensors"),
+           sensorNoise := ← jKw jStrList (← j.getObjVal? "sensorNoise") }
+
+def opAccept (j : Json) : Except String Json := do
+  let d ← jVDef (← j.getObjVal? "def")
+  return okJ (Json.mkObj [("ui", acceptsUi d), ("compile", acceptsCompile d), ("ekf", acceptsEkf d),
+    ("valid_ui", validUi d), ("valid_cal", validCal d), ("valid_ekf", validEkf d)])
+
 def dispatch (j : Json) : Except String Json := do
   let op ← (← j.getObjVal? "op").getStr?
   match op with
@@ -388,6 +414,7 @@ def dispatch (j : Json) : Except String Json := do
   | "predict" => opPredict j
   | "update" => opUpdate j
   | "decide" => opDecide j
+  | "accept" => opAccept j
   | "ping" => return okJ (Json.str "pong")
   | o => .error s!"unknown op {o}"
 
